@@ -727,7 +727,8 @@ func ReconstructMessageWithSharedDBAndS3(sharedDB *sql.DB, userDB *sql.DB, messa
 			if len(subtype) > 0 {
 				subtype = strings.ToUpper(subtype[:1]) + subtype[1:]
 			}
-			boundary := fmt.Sprintf("----=_Part_%s_%d", subtype, time.Now().UnixNano())
+			// Derived from the stored message, not from the clock: the same message is always returned as the same octets
+			boundary := fmt.Sprintf("----=_Part_%s_%d_0", subtype, messageID)
 
 			fmt.Printf("DEBUG ReconstructMessage: Using %s for %d root parts\n", multipartType, len(rootParts))
 
@@ -830,7 +831,8 @@ func reconstructPartDFS(buf *bytes.Buffer, sharedDB *sql.DB, node *PartNode, s3S
 		if len(subtype) > 0 {
 			subtype = strings.ToUpper(subtype[:1]) + subtype[1:]
 		}
-		boundary := fmt.Sprintf("----=_Part_%s_%d", subtype, time.Now().UnixNano())
+		// Derived from the stored part, not from the clock: the same message is always returned as the same octets
+		boundary := fmt.Sprintf("----=_Part_%s_%d", subtype, node.Part["id"].(int64))
 
 		fmt.Printf("DEBUG reconstructPartDFS: Multipart container type='%s' with %d children, boundary='%s'\n",
 			multipartType, len(node.Children), boundary)
